@@ -4,6 +4,7 @@
 From JV Require Import Lib.Base Model.C09ParserState Spec.C09Spec.
 
 Record obs_state := { os_pending : list pending; os_args : list (list (str * list tok)); os_shtab : list bool;
+                      os_ddef : list (option dv);
                       os_pk : option (option bool * bool); os_sap : option label; os_dk : option (bool * bool);
                       os_help_skip : bool; os_unexplained : bool }.
 
@@ -44,20 +45,22 @@ Definition errk_eqb (a b : errk) : bool :=
   | EHelpArgs, EHelpArgs => true
   | EUnknown a, EUnknown b => str_eqb a b
   | _, _ => false end.
+Definition dv_eqb (a b : option dv) : bool := option_eqb (pair_eqb str_eqb str_eqb) a b.
 Definition out_eqb (a b : out) : bool :=
   match a, b with
-  | OOk x, OOk y => Bool.eqb x y
+  | OOk x d, OOk y d' => Bool.eqb x y && dv_eqb d d' 
   | OErr x, OErr y => errk_eqb x y
   | OExc, OExc => true
   | OExit2, OExit2 => true
   | OHelp x, OHelp y => str_eqb x y
   | OHelpCls x, OHelpCls y => Bool.eqb x y
-  | OPrint k f n, OPrint k' f' n' => option_eqb str_eqb k k' && flags_eqb f f' && Bool.eqb n n'
+  | OPrint k f n d, OPrint k' f' n' d' =>
+      option_eqb str_eqb k k' && flags_eqb f f' && Bool.eqb n n' && dv_eqb d d'
   | _, _ => false
   end.
 Definition kind_of (o : out) : N :=
   match o with
-  | OOk _ => 0 | OErr _ => 1 | OExc => 2 | OExit2 => 4 | OHelp _ | OHelpCls _ | OPrint _ _ _ => 3
+  | OOk _ _ => 0 | OErr _ => 1 | OExc => 2 | OExit2 => 4 | OHelp _ | OHelpCls _ | OPrint _ _ _ _ => 3
   end%N.
 
 Definition args_agree (keys : list str) (m o : list (str * list tok)) : bool :=
@@ -74,6 +77,7 @@ Definition state_agrees (Ds : list decl) (s : state) (o : obs_state) : bool :=
   negb (os_unexplained o) &&
   list_eqb pending_eqb (map ps_pending (st_ps s)) (os_pending o) &&
   list_eqb Bool.eqb (map ps_shtab (st_ps s)) (os_shtab o) &&
+  list_eqb dv_eqb (map ps_ddef (st_ps s)) (os_ddef o) &&
   args_all (combine Ds (st_ps s)) (os_args o) &&
   option_eqb (pair_eqb (option_eqb Bool.eqb) Bool.eqb) (st_pk s) (os_pk o) &&
   option_eqb label_eqb (st_sap s) (os_sap o) &&
